@@ -2,6 +2,8 @@ import Bluebell.Convert
 import Bluebell.Lemmas.EidInv
 import Bluebell.Props.C13
 import Bluebell.Lemmas.ToXmlText
+import Bluebell.Lemmas.PlainLine
+import Bluebell.Lemmas.BlockLine
 /-!
 # C03 — no text is lost, duplicated or invented on the way to XML
 
@@ -161,5 +163,34 @@ example :
       (some "1.") (some [.text "Title"]) none none none
     (itemToXml testUris none 50 item {}).1.toOption.map iterText = some "1.Titlea b(1)c" ∧ itemText item = "1.Titlea b(1)c" := by
   decide +kernel
+
+/-! ## Text the parser does not understand is kept as a paragraph — at the grammar level
+
+For every text and offset: a line of plain characters (no `* / _ {` backslash; the regenerated class of
+the plain-text rule) whose first character cannot start any keyword-led block rule
+(`blockChoosesLine`, decided on the regenerated grammar) is read by every block-level rule as one
+paragraph holding exactly those characters. `C03_ordinary_first_chars` shows the hypothesis holds for
+lowercase letters, digits and common punctuation; uppercase letters that start a keyword are the
+interesting exclusions (there the keyword rules get to try first, which is C04's subject). -/
+theorem C03_plain_line_is_its_text (inp : Array Char) (p : Nat) (c : Char) (r : List Char)
+    (h : AtPlain inp p (c :: r)) (hc : c ≠ Char.ofNat 15) (hb : blockChoosesLine c = true) :
+    ∃ t, (∀ fuel, toDict inp (fuel + 2) t
+            = .node "content" "p" none (some [Item.text (String.ofList (c :: r))]) none none none none none) ∧
+      ∀ rule ∈ blockLevelRules, Lim aknExec inp (.ref rule) p (.ok t) := by
+  obtain ⟨n0, h0⟩ := line_of_plain inp p c r h hc
+  obtain ⟨te, stop, ht⟩ := h0 n0 (Nat.le_refl _)
+  have hline : Lim aknExec inp (.ref "line") p (.ok _) :=
+    ⟨n0, fun n hn => by rw [eval_mono aknExec inp _ p hn (by rw [ht]; trivial), ht]⟩
+  exact ⟨_, fun fuel => toDict_plain_line inp fuel p stop te c r h,
+    block_rules_follow_line inp p c h.1 hb _ hline⟩
+
+theorem C03_ordinary_first_chars :
+    ("abcdefghijklmnopqrstuvwxyz0123456789(\"'.,;:-é§".toList.all fun c => blockChoosesLine c && isPlain c) = true := by
+  decide +kernel
+
+/-- the hypotheses are satisfiable: the second line of this text -/
+example : AtPlain "PART 1\n  the quick (brown) fox, 1.2 - jumps\nmore\n".toList.toArray 9
+    "the quick (brown) fox, 1.2 - jumps".toList := by
+  simp [AtPlain, isPlain, clsMatch, overrideNeg, overrideCls]
 
 end Bluebell
